@@ -273,6 +273,9 @@ def run_case(kind, case):
         from vf import concur
         calls, warm, judge = _concur_setup(case)
         return concur.replay_calls(calls, ("bits/ecmath.py",), case["choices"], judge, warmup=warm)
+    if kind == "histconcur":
+        from vf.runner import replay_histconcur
+        return replay_histconcur(run_case, PROPERTY, case, CONCUR_FILES, hist_ops)
     if kind == "interrupted":
         from vf import seqexplore
         return seqexplore.replay_interrupted(run_case, case)
@@ -281,6 +284,13 @@ def run_case(kind, case):
         return seqexplore.replay(run_case, case)
     return CASES[kind](case)
 
+
+def hist_ops(job):
+    """a long homogeneous history for E7: k*P for growing k and rotating base points"""
+    cv = job["curve"]
+    C = smallcurve.curve(cv)
+    n = 1300 if job.get("tier") == "quick" else 4500
+    return [("mul", {"curve": cv, "k": 1 + (i * 5) % (2 * C.n), "P": list(C.mul(1 + i % (C.n - 1), C.G))}) for i in range(n)]
 
 def long_ops(job):
     """the public key of EVERY secret key of the p=211 curve and k*G for every k (as a plain multiplication)"""
@@ -356,6 +366,8 @@ def jobs(tier, seed):
     from vf.runner import seq_jobs
     js += seq_jobs(3, curve=list(smallcurve.TABLE[0]), weight=3)
     js += seq_jobs(1, weight=3, name="seqreal")
+    from vf.runner import histconcur_jobs
+    js += histconcur_jobs(curve=list(smallcurve.TABLE[0]))
     from vf.runner import long_jobs
     js += long_jobs(curve=list(smallcurve.TABLE[5]))
     from vf.runner import interrupt_jobs
@@ -366,6 +378,9 @@ def jobs(tier, seed):
 
 
 def run_job(job):
+    if job["part"] == "histconcur":
+        from vf.runner import run_histconcur_job
+        return run_histconcur_job(job, hist_ops(job), run_case, PROPERTY, CONCUR_FILES)
     if job["part"] == "longhist":
         from vf.runner import run_long_job
         return run_long_job(job, long_ops(job), run_case)
